@@ -284,7 +284,7 @@ impl<T: Numeric> Atomic<T> {
             trace!(state = ?self.state, "Atomic::unsync_load");
 
             // Return the value
-            let index = index(state.cnt - 1);
+            let index = state.last_in_modification_order(&mut execution.threads);
             T::from_u64(state.stores[index].value)
         })
     }
@@ -365,7 +365,7 @@ impl<T: Numeric> Atomic<T> {
     ///
     /// `with_mut` must happen-after all stores to the cell.
     pub(crate) fn with_mut<R>(&mut self, location: Location, f: impl FnOnce(&mut T) -> R) -> R {
-        let value = super::synchronize(|execution| {
+        let (value, index) = super::synchronize(|execution| {
             let state = self.state.get_mut(&mut execution.objects);
 
             state
@@ -378,11 +378,11 @@ impl<T: Numeric> Atomic<T> {
             trace!(state = ?self.state, "Atomic::with_mut");
 
             // Return the value of the most recent store
-            let index = index(state.cnt - 1);
-            T::from_u64(state.stores[index].value)
+            let index = state.last_in_modification_order(&mut execution.threads);
+            (T::from_u64(state.stores[index].value), index)
         });
 
-        struct Reset<T: Numeric>(T, object::Ref<State>);
+        struct Reset<T: Numeric>(T, object::Ref<State>, usize);
 
         impl<T: Numeric> Drop for Reset<T> {
             fn drop(&mut self) {
@@ -395,8 +395,7 @@ impl<T: Numeric> Atomic<T> {
 
                     // The value may have been mutated, so it must be placed
                     // back.
-                    let index = index(state.cnt - 1);
-                    state.stores[index].value = T::into_u64(self.0);
+                    state.stores[self.2].value = T::into_u64(self.0);
 
                     if !std::thread::panicking() {
                         state.track_unsync_mut(&execution.threads);
@@ -406,7 +405,7 @@ impl<T: Numeric> Atomic<T> {
         }
 
         // Unset on exit
-        let mut reset = Reset(value, self.state);
+        let mut reset = Reset(value, self.state, index);
         f(&mut reset.0)
     }
 
@@ -639,6 +638,36 @@ impl State {
                 Err(e)
             }
         }
+    }
+
+    /// The store that an access which all stores happen before has to see:
+    /// the last one in modification order. Racing stores may not be ordered
+    /// yet; then the most recently executed of the latest ones is taken and,
+    /// as for a load, the others are ordered before it.
+    fn last_in_modification_order(&mut self, threads: &mut thread::Set) -> usize {
+        let len = cmp::min(self.cnt as usize, self.stores.len());
+        let last_executed = index(self.cnt - 1);
+        let mut latest: Option<(usize, usize)> = None;
+
+        for i in 0..len {
+            if (0..len).any(|j| j != i && self.is_mo_before(i, j)) {
+                continue;
+            }
+
+            // Number of stores executed after the one in slot `i`
+            let age = (last_executed + len - i) % len;
+
+            if latest.map_or(true, |(other, _)| age < other) {
+                latest = Some((age, i));
+            }
+        }
+
+        let index = latest.expect("no store").1;
+
+        self.apply_load_coherence(threads, index);
+        self.stores[index].first_seen.touch(threads);
+
+        index
     }
 
     fn apply_load_coherence(&mut self, threads: &mut thread::Set, index: usize) {
